@@ -140,7 +140,9 @@ def run(ctx, rep):
         for bb, t, cal, c in b.calls():
             if cal != CRV + "report_error":
                 continue
-            n_sites += 1
+            # a site inside a shared reporting helper stands for each of the helper's call sites (extracting the helper
+            # must not look like sites went missing)
+            n_sites += max(1, len({(e_[0], e_[5]) for e_ in edges if e_[1] == p}))
             o = b.origin(t["args"][2])
             rp = root_param(o)
             ok = False
